@@ -19,6 +19,7 @@ EXPLANATION = (
     "excludes a constructor that owns a statement suite in the interpreter's grammar (ExceptHandler, match_case included).  "
     "Completeness of reported matches and meaning-preserving substitution are not decided."
     ' R19.9: the goal is re-indented relative to the START of the match region.'
+    ' R19.10: a pattern is reduced to an expression node only when it is exactly one statement.'
 )
 ASSUMPTIONS = ["node.region is exact (rests on C08)"]
 
